@@ -505,12 +505,14 @@ func isLenPositive(v ssa.Value) bool {
 // c01R5: a structural necessary condition of "the outcome never depends on the order in which the sites were
 // declared".  The trie is built by repeated Insert calls; its final state is independent of their order iff the
 // writes commute.  Every write of trie state performed on the Insert path must therefore be one of
-//   (a) a map insert of a freshly made node on the 'absent' edge of a lookup of that same key (idempotent),
-//   (b) the site/path fields of the key's own terminal node (a location no other key writes), stored outside
-//       the walk loop or under the terminal test of the recursion,
-//   (c) a constant (all writers agree), or
-//   (d) a monotone accumulation: the stored value is combined with the field's current value by + | & || &&,
-//       or the store is guarded by a comparison of the new value with the field's current value (max/min).
+//
+//	(a) a map insert of a freshly made node on the 'absent' edge of a lookup of that same key (idempotent),
+//	(b) the site/path fields of the key's own terminal node (a location no other key writes), stored outside
+//	    the walk loop or under the terminal test of the recursion,
+//	(c) a constant (all writers agree), or
+//	(d) a monotone accumulation: the stored value is combined with the field's current value by + | & || &&,
+//	    or the store is guarded by a comparison of the new value with the field's current value (max/min).
+//
 // A plain store of a per-key value into a location shared between keys (`t.depth = n`) makes the last declared
 // site win, whatever the field is used for on the lookup side; fields never read on the Match path are ignored.
 func c01R5(h H) {
